@@ -1,4 +1,6 @@
 import NmlVerif.Proofs.Geom
+import NmlVerif.Proofs.GeomVolume
+import NmlVerif.Proofs.GeomArea
 import Mathlib.Analysis.SpecialFunctions.Integrals.Basic
 import Mathlib.Analysis.InnerProductSpace.PiL2
 /-!
